@@ -346,12 +346,12 @@ main(int argc, char **argv)
   /* read --mask2rf file, if nec */
   if(esl_opt_GetString(go, "--mask2rf") != NULL) {
     if((status = read_mask_file(esl_opt_GetString(go, "--mask2rf"), errbuf, &mask_for_rf, &mask_for_rf_len)) != eslOK)
-      esl_fatal(errbuf);
+      esl_fatal("%s", errbuf);
   }
   /* read --xmask file, if nec */
   if(esl_opt_GetString(go, "--xmask") != NULL) {
     if((status = read_mask_file(esl_opt_GetString(go, "--xmask"), errbuf, &xmask, &xmask_len)) != eslOK)
-      esl_fatal(errbuf);
+      esl_fatal("%s", errbuf);
   }
 
   /****************************
@@ -372,13 +372,13 @@ main(int argc, char **argv)
    *******************************************************************/
   if ( esl_opt_IsOn(go, "--seq-k") || esl_opt_IsOn(go, "--seq-r") || esl_opt_IsOn(go, "--reorder")) {
     if( esl_opt_IsOn(go, "--seq-k")) { 
-      if((status = read_seq_name_file(esl_opt_GetString(go, "--seq-k"), errbuf, &seqlist, &seqlist_n)) != eslOK) esl_fatal(errbuf);	  
+      if((status = read_seq_name_file(esl_opt_GetString(go, "--seq-k"), errbuf, &seqlist, &seqlist_n)) != eslOK) esl_fatal("%s", errbuf);	  
     }
     else if( esl_opt_IsOn(go, "--reorder")) { 
-      if((status = read_seq_name_file(esl_opt_GetString(go, "--reorder"), errbuf, &seqlist, &seqlist_n)) != eslOK) esl_fatal(errbuf);	  
+      if((status = read_seq_name_file(esl_opt_GetString(go, "--reorder"), errbuf, &seqlist, &seqlist_n)) != eslOK) esl_fatal("%s", errbuf);	  
     }
     else { /* --seq-r enabled */
-      if((status = read_seq_name_file(esl_opt_GetString(go, "--seq-r"), errbuf, &seqlist, &seqlist_n)) != eslOK) esl_fatal(errbuf);	  
+      if((status = read_seq_name_file(esl_opt_GetString(go, "--seq-r"), errbuf, &seqlist, &seqlist_n)) != eslOK) esl_fatal("%s", errbuf);	  
     }
   }
 
@@ -395,7 +395,7 @@ main(int argc, char **argv)
 	/* if RF exists, get i_am_rf array[0..alen] which tells us which positions are non-gap RF positions
 	 * and rf2a_map, a map of non-gap RF positions to overall alignment positions */
 	    if(msa->rf != NULL) {
-	      if((status = map_rfpos_to_apos(msa, abc, errbuf, &i_am_rf, &rf2a_map, &rflen)) != eslOK) esl_fatal(errbuf);
+	      if((status = map_rfpos_to_apos(msa, abc, errbuf, &i_am_rf, &rf2a_map, &rflen)) != eslOK) esl_fatal("%s", errbuf);
 	    }
 
 	/********************************************************************
@@ -410,16 +410,16 @@ main(int argc, char **argv)
 	        esl_fatal("--seq-k, --seq-r, --reorder only work on Stockholm formatted alignments");
 	      }
 	      if( esl_opt_IsOn(go, "--seq-k")) { 
-	        if((status = msa_keep_or_remove_seqs(msa, errbuf, seqlist, seqlist_n, TRUE, (esl_opt_GetBoolean(go, "--k-reorder")), nali, &new_msa)) != eslOK)        esl_fatal(errbuf);	  
+	        if((status = msa_keep_or_remove_seqs(msa, errbuf, seqlist, seqlist_n, TRUE, (esl_opt_GetBoolean(go, "--k-reorder")), nali, &new_msa)) != eslOK)        esl_fatal("%s", errbuf);	  
 	    /* new_msa is msa but only with seqs listed in --seq-k <f> file */
 	      }
 	      else if( esl_opt_IsOn(go, "--reorder")) { 
 	        if(seqlist_n != msa->nseq) esl_fatal("With --reorder <f>, <f> contains %d names, but alignment %d has %d seqs (all seqs must be listed in <f>)", seqlist_n, nali, msa->nseq);
-	        if((status = msa_keep_or_remove_seqs(msa, errbuf, seqlist, seqlist_n, TRUE, TRUE, nali, &new_msa)) != eslOK)        esl_fatal(errbuf);	  
+	        if((status = msa_keep_or_remove_seqs(msa, errbuf, seqlist, seqlist_n, TRUE, TRUE, nali, &new_msa)) != eslOK)        esl_fatal("%s", errbuf);	  
 	    /* new_msa is msa but only with seqs listed in --seq-k <f> file */
 	      }
 	      else { /* --seq-r enabled */
-	        if((status = msa_keep_or_remove_seqs(msa, errbuf, seqlist, seqlist_n, FALSE, TRUE, nali, &new_msa)) != eslOK)        esl_fatal(errbuf);	  
+	        if((status = msa_keep_or_remove_seqs(msa, errbuf, seqlist, seqlist_n, FALSE, TRUE, nali, &new_msa)) != eslOK)        esl_fatal("%s", errbuf);	  
 	        /* new_msa is msa but without seqs listed in --seq-r <f> file */
 	      }
 	      esl_msa_Destroy(msa);
@@ -478,14 +478,14 @@ main(int argc, char **argv)
 	      new_msa = NULL;
 	    }
       if( esl_opt_IsOn(go, "--detrunc")) {
-	      if((status = msa_remove_truncated_seqs(msa, errbuf, esl_opt_GetInteger(go, "--detrunc"), i_am_rf, &new_msa)) != eslOK) esl_fatal(errbuf);
+	      if((status = msa_remove_truncated_seqs(msa, errbuf, esl_opt_GetInteger(go, "--detrunc"), i_am_rf, &new_msa)) != eslOK) esl_fatal("%s", errbuf);
 	      /* new_msa is msa without seqs below minlen, swap ptrs */
 	      esl_msa_Destroy(msa);
 	      msa = new_msa;
 	      new_msa = NULL;
 	    }
 	    if( esl_opt_IsOn(go, "--xambig")) {
-	      if((status = msa_remove_seqs_with_ambiguities(msa, esl_opt_GetInteger(go, "--xambig"), &new_msa)) != eslOK) esl_fatal(errbuf);
+	      if((status = msa_remove_seqs_with_ambiguities(msa, esl_opt_GetInteger(go, "--xambig"), &new_msa)) != eslOK) esl_fatal("%s", errbuf);
 	      /* new_msa is msa without seqs with > <n> (from --xambig <n>) ambiguities, swap ptrs */
 	      esl_msa_Destroy(msa);
 	      msa = new_msa;
@@ -496,9 +496,9 @@ main(int argc, char **argv)
 	 * Remove sequences based on a specific insert (--seq-ins)
 	 *********************************************************/
 	    if( esl_opt_IsOn(go, "--seq-ins")) { 
-	      if((status = find_seqs_with_given_insert(msa, i_am_rf, errbuf, esl_opt_GetInteger(go, "--seq-ins"), esl_opt_GetInteger(go, "--seq-ni"), esl_opt_GetInteger(go, "--seq-xi"), &useme)) != eslOK) esl_fatal(errbuf);	  
+	      if((status = find_seqs_with_given_insert(msa, i_am_rf, errbuf, esl_opt_GetInteger(go, "--seq-ins"), esl_opt_GetInteger(go, "--seq-ni"), esl_opt_GetInteger(go, "--seq-xi"), &useme)) != eslOK) esl_fatal("%s", errbuf);	  
 	      if(esl_vec_ISum(useme, msa->nseq) == 0) esl_fatal("No sequences satisfy the --seq-ins option.");
-	      if((status = esl_msa_SequenceSubset(msa, useme, &new_msa)) != eslOK)  esl_fatal(errbuf);	  
+	      if((status = esl_msa_SequenceSubset(msa, useme, &new_msa)) != eslOK)  esl_fatal("%s", errbuf);	  
 	  /* new_msa is msa but without seqs that do not have an insert of length <a>..<b> (from --seq-ni <a> and --seq-xi <b>) after consensus column <n> from --seq-ins <n> file */
 	      esl_msa_Destroy(msa);
 	      msa = new_msa;
@@ -521,7 +521,7 @@ main(int argc, char **argv)
 	  /* read the sequences */
 	      read_sqfile(trimfp, msa->abc, msa->nseq, &trim_sq); /* dies on failure */
 	  /* trim the msa */
-	      if((status = trim_msa(msa, trim_sq, esl_opt_GetBoolean(go, "--t-keeprf"), errbuf)) != eslOK) esl_fatal(errbuf);
+	      if((status = trim_msa(msa, trim_sq, esl_opt_GetBoolean(go, "--t-keeprf"), errbuf)) != eslOK) esl_fatal("%s", errbuf);
 	      for(i = 0; i < msa->nseq; i++) esl_sq_Destroy(trim_sq[i]); 
 	      free(trim_sq);
 	      trim_sq = NULL;
@@ -532,7 +532,7 @@ main(int argc, char **argv)
 	 *****************************************************/
 	    if(esl_opt_IsOn(go, "--minpp")) { 
 	      if(msa->pp == NULL) esl_fatal("--minpp requires all alignments have posterior probability annotation, %d does not\n", nali);
-	      if((status = prune_msa_based_on_posteriors(msa, esl_opt_GetReal(go, "--minpp"), errbuf)) != eslOK) esl_fatal(errbuf);
+	      if((status = prune_msa_based_on_posteriors(msa, esl_opt_GetReal(go, "--minpp"), errbuf)) != eslOK) esl_fatal("%s", errbuf);
 	    }
       
 	/**********************************************
@@ -545,19 +545,19 @@ main(int argc, char **argv)
 	      esl_tree_SingleLinkage(D, &T);
 	      esl_tree_SetTaxaParents(T);
 	      esl_tree_SetTaxonlabels(T, msa->sqname);
-	      if((status = esl_tree_Validate(T, errbuf)) != eslOK) esl_fatal(errbuf);
+	      if((status = esl_tree_Validate(T, errbuf)) != eslOK) esl_fatal("%s", errbuf);
 	
 	      esl_tree_WriteNewick(treefp, T); 
 	
 	  /* Get new order for seqs in the MSA based on the tree */
-	      if((status = get_tree_order(T, errbuf, &order)) != eslOK) esl_fatal(errbuf);
+	      if((status = get_tree_order(T, errbuf, &order)) != eslOK) esl_fatal("%s", errbuf);
 	
 	  /*for(i = 0; i < msa->nseq; i++) printf("new MSA idx: %3d | orig MSA idx: %3d\n", i, order[i]);*/
 	      esl_tree_Destroy(T);
 	      esl_dmatrix_Destroy(D);
 	      T = NULL;
 	      D = NULL;
-	      if((status = reorder_msa(msa, order, errbuf)) != eslOK) esl_fatal(errbuf);
+	      if((status = reorder_msa(msa, order, errbuf)) != eslOK) esl_fatal("%s", errbuf);
 	      free(order);
 	    }	  
 
@@ -568,15 +568,15 @@ main(int argc, char **argv)
 	/* Remove GC annotation, if nec */
   
       if( esl_opt_IsOn(go, "--rm-gc")) {
-	      if((status = remove_gc_markup(msa, errbuf, esl_opt_GetString(go, "--rm-gc")) != eslOK)) esl_fatal(errbuf);
+	      if((status = remove_gc_markup(msa, errbuf, esl_opt_GetString(go, "--rm-gc")) != eslOK)) esl_fatal("%s", errbuf);
 	    }
 	/* Rewrite RF annotation based on a mask, if nec */
 	    if(mask_for_rf != NULL) { /* --mask2rf enabled */
 	      if(msa->rf != NULL && mask_for_rf_len == rflen) { /* mask corresponds to RF len */
-	        if((status = write_rf_given_rflen(msa, errbuf, i_am_rf, esl_opt_GetBoolean(go, "--m-keeprf"), mask_for_rf, mask_for_rf_len)) != eslOK) esl_fatal(errbuf);
+	        if((status = write_rf_given_rflen(msa, errbuf, i_am_rf, esl_opt_GetBoolean(go, "--m-keeprf"), mask_for_rf, mask_for_rf_len)) != eslOK) esl_fatal("%s", errbuf);
 	      }
 	      else if(mask_for_rf_len == msa->alen) { 
-	        if((status = write_rf_given_alen(msa, errbuf, i_am_rf, esl_opt_GetBoolean(go, "--m-keeprf"), mask_for_rf, mask_for_rf_len)) != eslOK) esl_fatal(errbuf);
+	        if((status = write_rf_given_alen(msa, errbuf, i_am_rf, esl_opt_GetBoolean(go, "--m-keeprf"), mask_for_rf, mask_for_rf_len)) != eslOK) esl_fatal("%s", errbuf);
 	      }
 	      else { 
 	        if(msa->rf != NULL) esl_fatal("msa %d, alignment length is %d, nongap RF length is %d, --mask2rf mask length is neither (%d)", msa->alen, rflen);
@@ -586,20 +586,20 @@ main(int argc, char **argv)
 	/* Add annotation numbering the nongap RF columns, if nec */
 	    if( esl_opt_IsOn(go, "--num-rf")) { 
 	      if(msa->rf == NULL) esl_fatal("--num-rf requires all alignments have #=GC RF annotation, but alignment %d does not", nali);
-	      if((status = number_columns(msa, FALSE, i_am_rf, errbuf) != eslOK)) esl_fatal(errbuf);
+	      if((status = number_columns(msa, FALSE, i_am_rf, errbuf) != eslOK)) esl_fatal("%s", errbuf);
 	    }
 	/* Add annotation numbering all columns, if nec */
 	    if( esl_opt_IsOn(go, "--num-all")) { 
-	      if((status = number_columns(msa, TRUE, i_am_rf, errbuf) != eslOK)) esl_fatal(errbuf);
+	      if((status = number_columns(msa, TRUE, i_am_rf, errbuf) != eslOK)) esl_fatal("%s", errbuf);
 	    }
 	/* Convert POST to PP annotation, if nec */
 	    if(esl_opt_GetBoolean(go, "--post2pp")) { 
 	      if(msa->pp != NULL) esl_fatal("--post2pp enabled but alignment %d already has PP annotation.\n", nali);
-	      if((status = convert_post_to_pp(msa, errbuf, nali)) != eslOK) esl_fatal(errbuf);
+	      if((status = convert_post_to_pp(msa, errbuf, nali)) != eslOK) esl_fatal("%s", errbuf);
 	    }
 	/* Impose consensus structure to get individual secondary structures, if nec */
 	    if((esl_opt_GetBoolean(go, "--sindi")) || (esl_opt_GetBoolean(go, "--cindi"))) { 
-	      if((status = individualize_consensus(go, errbuf, msa) != eslOK)) esl_fatal(errbuf);
+	      if((status = individualize_consensus(go, errbuf, msa) != eslOK)) esl_fatal("%s", errbuf);
 	    }
 
 	/****************************************************
@@ -609,7 +609,7 @@ main(int argc, char **argv)
 	 ***************************************************/
 	/* --xmask option: expand the alignment to fit lanemask in xmask <f>, number of TOTAL msa columns must equal number of 1s in <f>. */
 	    if(xmask != NULL) { 
-	      if((status = expand_msa2mask(errbuf, msa, xmask, &new_msa)) != eslOK) esl_fatal(errbuf);
+	      if((status = expand_msa2mask(errbuf, msa, xmask, &new_msa)) != eslOK) esl_fatal("%s", errbuf);
 	      esl_msa_Destroy(msa);
 	      msa = new_msa;
 	    }
@@ -625,7 +625,7 @@ main(int argc, char **argv)
 	    /* create distance matrix and infer tree by single linkage clustering */
 	    /* first, remove all non-consensus columns */
 	        rfmsa = esl_msa_Clone(msa);
-	        if((status = esl_msa_ColumnSubset(rfmsa, errbuf, i_am_rf)) != eslOK) esl_fatal(errbuf);
+	        if((status = esl_msa_ColumnSubset(rfmsa, errbuf, i_am_rf)) != eslOK) esl_fatal("%s", errbuf);
 	        dst_nongap_XDiffMx(rfmsa->abc, rfmsa->ax, rfmsa->nseq, &D);
 	        esl_msa_Destroy(rfmsa);
 	        rfmsa = NULL;
@@ -638,7 +638,7 @@ main(int argc, char **argv)
 	      }
 	      else { /* do_insert_cluster, create insert distance matrix and infer tree by SLC */ 
 	        if(msa->rf == NULL) esl_fatal("Error, --cn-ins, --cs-ins and --cx-ins require all alignments have #=GC RF anntotation, aln %d does not.", nali);
-	        if((status = insert_x_diffmx(go, errbuf, msa, rflen, i_am_rf, TRUE, TRUE, &D)) != eslOK) esl_fatal(errbuf);
+	        if((status = insert_x_diffmx(go, errbuf, msa, rflen, i_am_rf, TRUE, TRUE, &D)) != eslOK) esl_fatal("%s", errbuf);
 	        do_ctarget_nc    = esl_opt_IsOn(go, "--cn-ins");
 	        do_ctarget_nsize = esl_opt_IsOn(go, "--cs-ins");
 	        do_cmindiff      = esl_opt_IsOn(go, "--cx-ins");
@@ -655,7 +655,7 @@ main(int argc, char **argv)
 	        }	  
 	        fclose(mxfp);
 	      }
-	      if((status = MSADivide(msa, D, do_cmindiff, do_ctarget_nc, do_ctarget_nsize, mindiff, nc, nsize, &nmsa, &cmsa, &xsize, errbuf)) != eslOK) esl_fatal(errbuf);
+	      if((status = MSADivide(msa, D, do_cmindiff, do_ctarget_nc, do_ctarget_nsize, mindiff, nc, nsize, &nmsa, &cmsa, &xsize, errbuf)) != eslOK) esl_fatal("%s", errbuf);
 	      esl_msa_Destroy(msa); 
 	      msa = NULL;
 	      nmin = esl_opt_IsOn(go, "--c-nmin") ? esl_opt_GetInteger(go, "--c-nmin") : 1;
@@ -676,7 +676,7 @@ main(int argc, char **argv)
 
 	/* handle the *in development* -M option, if enabled */
 	    if( esl_opt_IsOn(go, "-M")) { 
-	      if((status = minorize_msa(go, msa, errbuf, ofp, esl_opt_GetString(go, "-M"), outfmt) != eslOK)) esl_fatal(errbuf);
+	      if((status = minorize_msa(go, msa, errbuf, ofp, esl_opt_GetString(go, "-M"), outfmt) != eslOK)) esl_fatal("%s", errbuf);
 	    }
 
 	/********************
@@ -2176,7 +2176,7 @@ insert_x_diffmx(const ESL_GETOPTS *go, char *errbuf, ESL_MSA *msa, int rflen, in
   if(msa->rf == NULL)                  ESL_FAIL(eslEINVAL, errbuf, "No #=GC RF markup in alignment.");
   if(! (msa->flags & eslMSA_DIGITAL))  ESL_FAIL(eslEINVAL, errbuf, "insert_x_diffmx() MSA is not digitized.\n");
 
-  if (( D = esl_dmatrix_Create(N,N) ) == NULL) esl_fatal(errbuf);
+  if (( D = esl_dmatrix_Create(N,N) ) == NULL) esl_fatal("%s", errbuf);
   if ((status = determine_first_last_consensus_columns(msa, errbuf, i_am_rf, rflen, &firstA, &lastA)) != eslOK) return status;
 
   /* TEMP  for (i = 0; i < N; i++) printf("i: %4d %4d %4d\n", i, firstA[i], lastA[i]); */
